@@ -264,6 +264,8 @@ def write_log(spec: dict[str, Any], directory: Path, name: str) -> Written:
         glog._ZstdFileHandler.emit = held_emit  # type: ignore[method-assign]
     handler = glog.add_zst_log_handler(LOGGER, path, Loglevel.TRACE)
     close_error = None
+    intended: list[list[str] | None] = []
+    shared: dict[tuple[str, ...], list[str]] = {}
     try:
         for i, r in enumerate(recs):
             msg = f"{r['msg'][: len(r['msg']) // 2]}{MARK_L}{i + 1}{MARK_R}{r['msg'][len(r['msg']) // 2:]}"
@@ -271,9 +273,18 @@ def write_log(spec: dict[str, Any], directory: Path, name: str) -> Written:
                 # keep the marker out of the %-directives
                 msg = f"{MARK_L}{i + 1}{MARK_R}{r['msg']}"
             kw: dict[str, Any] = {}
+            intended.append(None if r["tags"] is None else list(r["tags"]))
             if r["tags"] is not None:
-                kw["extra"] = {"tags": list(r["tags"])}
+                if spec.get("share_tags"):
+                    # the caller keeps ONE list object per tag set (a module-level constant) and passes it to every call
+                    kw["extra"] = {"tags": shared.setdefault(tuple(r["tags"]), list(r["tags"]))}
+                else:
+                    kw["extra"] = {"tags": list(r["tags"])}
             fn = getattr(lg, _LEVEL_METHOD[r["level"]])
+            if spec.get("share_tags") and r["level"] == "NOTICE" and i % 3 == 1 and r["exc"] is None:
+                fn = lg.result           # a NOTICE record tagged "result" (whatever tags the caller passed)
+                intended[-1] = ["result"]
+                kw.setdefault("extra", {"tags": shared.setdefault((), [])})
             args = tuple(r["args"]) if r["args"] is not None else ()
             if r["exc"] is not None:
                 try:
@@ -296,6 +307,11 @@ def write_log(spec: dict[str, Any], directory: Path, name: str) -> Written:
         spec = dict(spec, close_error=close_error)
     if len(cap.seen) != len(recs):
         raise Machinery(f"writer harness: logged {len(recs)} records, the logger saw {len(cap.seen)}")
+    if spec.get("share_tags"):
+        # what the run logged = the tags the caller passed BY VALUE at the time of the call (a writer that edits the
+        # caller's list in place changes what the logger object saw, not what was logged)
+        for rec_seen, tags in zip(cap.seen, intended):
+            rec_seen["tags"] = tags
     return Written(spec, path, cap.seen)
 
 
